@@ -2,6 +2,8 @@
 from checks import regioncommon as rc
 
 REQUIRED = [
+    "Pixman.Props.C07.translate_mem",
+    "Pixman.Props.C07.translate_canon",
     "Pixman.Props.C07.init_not_mem",
     "Pixman.Props.C07.findBoxForYIdx_first",
     "Pixman.Props.C07.findBoxForYIdx_eq",
